@@ -87,9 +87,16 @@ class Problem(object):
             ks = self.case.get('kscale', 1.)
             return self.K.dot(c) + ks * (self.beta * c ** 3 + self.gamma * c ** 2)
         # scripted: residual magnitude drawn through a hash of (c, lf)
+        if not np.all(np.isfinite(c)):
+            return np.full(c.shape, np.nan)      # any real force law maps a non-finite state to a non-finite force
         hsh = hashlib.sha256(np.ascontiguousarray(c).tobytes() + np.float64(lf).tobytes()).digest()
         rho = self.script[int.from_bytes(hsh[:4], 'little') % len(self.script)]
         sgn = 1. if hsh[4] % 2 else -1.
+        if rho == 'nan':
+            # a user force law evaluated outside its domain (log / sqrt spring): one component is not a number, the others balance
+            out = self.fext_of(lf) - 1e-3 * self.case['absTOL'] * self.d
+            out[0] = np.nan
+            return out
         return self.fext_of(lf) - sgn * rho * self.d
 
     def calc_fint(self, c=None, inc=1., silent=True):
@@ -266,6 +273,8 @@ def _history_strategy(draw, tier='quick'):
                 script.append(absTOL * draw(gen.fl(0., 0.99)))
             else:
                 script.append(absTOL * draw(gen.logfl(1.0001, 1e6)))
+        if draw(st.integers(0, 4)) == 0:
+            script[draw(st.integers(0, len(script) - 1))] = 'nan'
         case['script'] = script
     return case
 
